@@ -6,6 +6,7 @@ Mod: name, ports [(name, dir, width)], nets {name: (msb, lsb)}, insts [Inst], as
 Inst: name, ref (module name), conns: dict port -> atoms (named map) or list of atoms per position (positional),
       params {name: token}, attrs {k: v|None}
 atom: ('const', '0'|'1') | (net, hi, lo)   (MSB-first inside an expression)"""
+import random
 import re
 
 
@@ -227,6 +228,10 @@ def write(mods, r, features=()):
         if not m.prim:
             for nn, (hi, lo) in m.nets.items():
                 if any(nn == p[0] for p in m.ports) and r.random() < 0.5:
+                    continue
+                if "ascending" in features and hi > lo and random.Random("asc:%s:%s:%d" % (m.name, nn, len(out))).random() < 0.5:
+                    # wire [0:3] a;  (ascending range: same bits, the higher index stays the more significant one for the reader)
+                    out.append("  %s [%d:%d] %s;" % (random.Random("kw:%d" % len(out)).choice(["wire", "wire", "reg"]), lo, hi, nn))
                     continue
                 out.append("  wire %s%s;" % ("[%d:%d] " % (hi, lo) if not (hi == 0 and lo == 0) else "", nn))
             comment()
